@@ -25,7 +25,7 @@ RULE = (
     "source position, or a reaction is bimolecular; distinct = network hash"
 )
 ASSUMPTIONS = ["reference expansion in this file (40 lines, from the statement)", "mapped reactions are irreversible mass action; labelled species never act as pure modifiers of mapped reactions"]
-N = {"quick": 400, "thorough": 8000}
+N = {"quick": 400, "thorough": 150000}
 MIN_NONTRIVIAL = {"quick": 100, "thorough": 2000}
 
 
